@@ -60,6 +60,9 @@ def cases(tier, seed, args):
         # any string is a prefix: no / several trailing underscores, other separators, a single letter
         for j, pfx in enumerate(['in', 'mix__', 'a.b/', 'x', '_', 'input_']):
             out.append(dict(t='container', fn=fn, rd='prefix', prefix=pfx, avg=bool(j % 2), seed=int(rng.integers(1 << 30))))
+    # a batch in which one estimate is digital silence (that row is 0 / 0; every other row is an ordinary problem)
+    for i in range(4 if q else 16):
+        out.append(dict(t='sisdr', T=int(rng.choice([8, 16, 33])), lead=2 + i % 3, seed=int(rng.integers(1 << 30)), scale=1.0, scale_ref=1.0, zero_row=int(i % 2)))
     # estimates exactly orthogonal to their reference (disjoint supports): the ratio is 0, the SI-SDR minus infinity
     for i in range(4 if q else 16):
         out.append(dict(t='sisdr', T=int(rng.choice([8, 16, 33])), lead=int(rng.integers(1, 4)), seed=int(rng.integers(1 << 30)), scale=[1.0, 1e-3, 1e6, 1.0][i % 4],
@@ -95,12 +98,14 @@ def run_case(case):
             est = rng.integers(-hi, hi + 1, size=(L, T))
             est[:, :half] = 0
             est[:, -1] = np.where(est[:, -1] == 0, 1, est[:, -1])
+        if case.get('zero_row') is not None:
+            est[case['zero_row']] = 0
         e, r = est * case['scale'], ref * case['scale_ref']
         d0 = (enc.digest(e), enc.digest(r))
         out, exc = _call(module_si_sdr.si_sdr, r.astype(np.float64), e.astype(np.float64))
         return [dict(kind='sisdr', est=enc.aint(est), ref=enc.aint(ref), exc=exc,
                      out=[] if out is None else enc.aflt(_lin(np.atleast_1d(out))),
-                     fp='fn=si_sdr' + (';orthogonal' if case.get('orth') else ''), key=f'sisdr:{case["seed"]}')]
+                     fp='fn=si_sdr' + (';orthogonal' if case.get('orth') else '') + (';silent_row' if case.get('zero_row') is not None else ''), key=f'sisdr:{case["seed"]}')]
     if t == 'sisdr_hi':
         T, L = case['T'], case['lead']
         ref = rng.integers(-6, 7, size=(L, T))
